@@ -4,6 +4,7 @@ import Grexv.Lemmas.Presentation
 import Grexv.Lemmas.EndToEnd
 import Grexv.Lemmas.Search
 import Grexv.Props.C03
+import Grexv.Lemmas.EndToEndR
 
 /-!
 # C08 — anchor options
@@ -156,6 +157,17 @@ theorem search_spans_with_end_anchor (cfg : Config) (hp : PlainPrintCI cfg) (hci
   have := printed_find_eol false cfg.cap cfg.esc st.finalAst hwf t hsc hself
   rw [fmtRegExp_plainCI_eq cfg hp, hci, hns, hne']
   exact this
+
+/-- **C08 with `-r`** (`RepPrint`: `-r`, no class option, case-sensitive, plain printing, one anchor disabled): the returned text is accepted
+and the compiled pattern matches a string in full iff an accepting path of the minimised automaton spells it — whichever anchor is
+disabled (`rep_exact` does not mention the anchors); and with the end anchor in place `Regex::find` returns every non-empty test case whole -/
+theorem search_spans_with_end_anchor_repetitions (cfg : Config) (hp : RepPrint cfg) (hns : cfg.noStart = true) (hne' : cfg.noEnd = false)
+    (env : Env) (ws : List Str) (st : Stages)
+    (h : regExpFrom cfg env ws = .ok st) (hseg : ∀ w ∈ ws, SegOK env w)
+    (hlen : ∀ w ∈ ws, (clusterOfPieces (env.segOf w)).length ≤ 1000)
+    (t : Str) (ht : t ∈ ws) (hne : t ≠ []) :
+    ∃ P, Spec.parse (fmtRegExp cfg st.finalAst) = some (⟨false, false⟩, P) ∧ Spec.find false P t = some (0, t.length) :=
+  rep_find_eol cfg hp hns hne' env ws st h hseg hlen t ht hne
 
 example : PlainPrintCI { noStart := true } := ⟨rfl, rfl, rfl, rfl, rfl⟩
 
